@@ -78,7 +78,10 @@ impl<'a> Autocompletion<'a> {
         if len > self.buffer.len() {
             // if buffer is full with this autocompletion, there is not much sense in doing it
             // since user will not be able to type anything else
-            // so just do nothing with it
+            // so do nothing with it, but remember that such variant exists,
+            // so other variants are not treated as the only possible one
+            self.partial = true;
+            self.autocompleted = Some(0);
         } else {
             self.partial =
                 self.partial || len < autocompletion.len() || self.autocompleted.is_some();
